@@ -63,6 +63,23 @@ pub fn run(case: &Value) -> Value {
         }
         "chardata" => chardata(case),
         "create" => create(case),
+        "attr_value" => {
+            use xml_dom::{Attr, Document, Element};
+            match xml_dom::XmlDocument::from_raw(input) {
+                Ok((rest, doc)) => {
+                    let root = doc.document_element().unwrap();
+                    let name = case["attr"].as_str().unwrap_or("a");
+                    match root.get_attribute_node(name) {
+                        Some(a) => match a.value() {
+                            Ok(v) => json!({"ok": true, "value": v, "rest": rest, "specified": a.specified()}),
+                            Err(e) => json!({"ok": false, "err": format!("{:?}", e)}),
+                        },
+                        None => json!({"ok": false, "err": "no such attribute"}),
+                    }
+                }
+                Err(e) => json!({"ok": false, "doc_err": format!("{:?}", e).chars().take(160).collect::<String>()}),
+            }
+        }
         _ => json!({"error": format!("unknown op {}", op)}),
     }
 }
